@@ -9622,13 +9622,14 @@ def _write_node(node, xml_tree=None, viewport_transform=None):
             xml_tree.set(SVG_ATTR_HEIGHT, str(node.height))
         if node.viewbox:
             xml_tree.set(SVG_ATTR_VIEWBOX, str(node.viewbox))
-        vt = None
+        vt = viewport_transform
         try:
-            vt = node.viewbox_transform
-            if vt:
-                m = Matrix(vt)
+            own = node.viewbox_transform
+            if own:
+                m = Matrix(own)
                 m.inverse()
-                vt = m
+                # The children carry the transforms of every enclosing viewport: undo the outer ones first.
+                vt = viewport_transform * m if viewport_transform else m
         except ValueError:
             pass
         for child in node:
